@@ -430,8 +430,64 @@ def zip_placement(ctx, dist):
     return n
 
 
+def recorded_after_growth(ctx, dist):
+    """the merged header of EVERY entry of the result names the algorithm that was applied (and keeps the caller's other
+    parameters) also after the object has grown from the flattened to the general form: first entry made with the
+    algorithm in the protected header / in the unprotected header only / inferred, then a second one added"""
+    import jwsgen as G
+    rep = ctx["rep"]
+    bdir = ctx["bdir"]
+    rnd = random.Random(ctx["seed"] + 18)
+    J = G.dumps
+    n = 0
+    hk, hk2 = G.oct_key(rnd, 32), G.oct_key(rnd, 64)
+    firsts = {"protected": {"protected": {"alg": "HS256", "kid": "first"}}, "unprotected only": {"header": {"alg": "HS256", "kid": "first"}},
+              "split": {"protected": {"alg": "HS256"}, "header": {"kid": "first"}}, "inferred": {"header": {"kid": "first"}}}
+    for name, tm in firsts.items():
+        a = G.harness(bdir, ["jwssig\t%s\t%s\t%s" % (J({"payload": G.b64(b"grow")}), J(tm), J(hk))])[0]
+        n += 1
+        if not a.startswith("{"):
+            rep.violation("growth:first-signature-failed:" + name, "jose_jws_sig failed (algorithm given through: %s): %s" % (name, a[:60]), {"template": tm})
+            continue
+        b = G.harness(bdir, ["jwssig\t%s\t%s\t%s" % (a, J({"protected": {"alg": "HS512", "kid": "second"}}), J(hk2))])[0]
+        n += 1
+        if not b.startswith("{"):
+            rep.violation("growth:second-signature-failed:" + name, "adding a second signature failed: " + b[:60], {"first": a[:600]})
+            continue
+        tok = json.loads(b)
+        stray = [m for m in ("protected", "header", "signature") if m in tok]
+        sigs = tok.get("signatures") or []
+        merged = []
+        for e in sigs:
+            h = dict(e.get("header") or {})
+            if isinstance(e.get("protected"), str):
+                h.update(json.loads(G.unb64(e["protected"])))
+            merged.append(h)
+        want = [{"alg": "HS256", "kid": "first"}, {"alg": "HS512", "kid": "second"}]
+        if stray or [{k: h.get(k) for k in ("alg", "kid")} for h in merged] != want:
+            rep.violation("growth:merged-header-lost:" + name.split(" ")[0],
+                          "after a second signature was added (first one: algorithm through %s) the merged headers of the entries are %s (top-level leftovers: %s); they must name %s"
+                          % (name, J(merged)[:200], stray, J(want)), {"first": a[:800], "result": b[:1200]})
+    # JWE: first recipient with alg in the protected / shared header (no per-recipient header), then a second recipient
+    kw, kw2 = G.oct_key(rnd, 16), G.oct_key(rnd, 32)
+    for name, tm in {"protected": {"protected": {"alg": "A128KW", "enc": "A128GCM"}}, "shared unprotected": {"protected": {"enc": "A128GCM"}, "unprotected": {"alg": "A128KW"}},
+                     "inferred": {"protected": {"enc": "A128GCM"}}}.items():
+        o = G.harness(bdir, ["jweenc2\t%s\t%s\t%s\t%s" % (J(tm), J(kw), J(dict(kw2, alg="A256KW") if name == "inferred" else kw), b"grow".hex())])[0]
+        n += 1
+        if o == "ERR" or o.startswith("CRASH"):
+            rep.violation("growth:second-recipient-failed:" + name, "two recipients (algorithm through %s) failed: %s" % (name, o[:60]), {"template": tm})
+            continue
+        tok = json.loads(o.split("\t")[0])
+        stray = [m for m in ("header", "encrypted_key") if m in tok]
+        if stray or len(tok.get("recipients") or []) != 2 or any("encrypted_key" not in e for e in tok["recipients"]):
+            rep.violation("growth:recipient-entry-lost:" + name.split(" ")[0], "two recipients (algorithm through %s): entries %s, top-level leftovers %s" % (name, J(tok.get("recipients"))[:200], stray),
+                          {"result": o[:1200]})
+    dist["merged headers of every entry after growth flattened -> general"] = n
+    return n
+
+
 def correspond(ctx):
-    ncf = conflicting_parameters(ctx, collections.Counter()) + zip_placement(ctx, collections.Counter())
+    ncf = conflicting_parameters(ctx, collections.Counter()) + zip_placement(ctx, collections.Counter()) + recorded_after_growth(ctx, collections.Counter())
     cases, dist = gen(ctx["tier"], ctx["seed"], ctx["bdir"])
     dist["conflicting algorithm parameters (apu/apv/p2c/alg/enc in two headers), end to end"] = ncf
     # drop wrapalg cases whose key cannot be used with the algorithm the header / the suggestion names:
